@@ -310,7 +310,7 @@ func intrinsic(name string, fn *ssa.Function, args []value, free []value) (value
 		if !inInit && short != "Load" {
 			globalWrites["sync.Map"] = true
 			if rs.noCheck > 0 {
-				panic(engineError{"sync.Map write inside a merged (assumed pure) call"})
+				impureMerge("sync.Map write")
 			}
 		}
 		switch short {
